@@ -33,6 +33,36 @@ type Behav struct {
 	Size        int    `json:"size,omitempty"`        // answer size knob (stat name length, error text length, read bytes)
 	NoQid       int    `json:"noqid,omitempty"`       // Walk: answer only this many qids (+1), i.e. NoQid-1 qids; 0 = by name convention
 	ZeroQid     bool   `json:"zeroqid,omitempty"`     // Walk: answer Rwalk with no qid at all, also for a walk with names (the extreme partial walk)
+	// DupPack: after the answer, an EXTRA answer to the same request made through
+	// the packing helpers (RespondR* / RespondError, not a bare Respond()):
+	// 1 = the same answer once more, 2 = the other outcome (an Rerror after a
+	// success, the success after an Rerror), e.g. a timeout path that fires
+	// although the result was delivered. Logged as "extra" / "extradone", never
+	// as "answer". 0 = none.
+	DupPack int `json:"duppack,omitempty"`
+	// DupGate: the extra answer of DupPack is made by another goroutine, as soon
+	// as the harness calls Release(DupKey(key)); without it the extra answer
+	// follows the first one directly, in the same goroutine.
+	DupGate bool `json:"dupgate,omitempty"`
+}
+
+// DupKey is the gate key of the extra answer of request key (Behav.DupGate).
+func DupKey(key string) string { return key + "#extra" }
+
+// ExtraAnswer is the extra answer Behav.DupPack makes for request m (nil if none).
+func ExtraAnswer(m *ref9p.Msg, b Behav, fidType uint8) *ref9p.Msg {
+	switch b.DupPack {
+	case 1:
+		return ExpectedAnswer(m, b, fidType)
+	case 2:
+		if b.Err != "" {
+			nb := b
+			nb.Err, nb.Ecode = "", 0
+			return ExpectedAnswer(m, nb, fidType)
+		}
+		return &ref9p.Msg{Type: ref9p.Rerror, Ename: "late answer: the operation timed out", Ecode: 110}
+	}
+	return nil
 }
 
 // Entry is one line of the implementation's log.
@@ -122,6 +152,11 @@ func (s *S) Set(key string, b Behav) {
 	if b.Hold || b.HoldDestroy {
 		if _, ok := s.gates[key]; !ok {
 			s.gates[key] = make(chan struct{})
+		}
+	}
+	if b.DupPack != 0 && b.DupGate {
+		if _, ok := s.gates[DupKey(key)]; !ok {
+			s.gates[DupKey(key)] = make(chan struct{})
 		}
 	}
 	if _, ok := s.entered[key]; !ok {
@@ -387,6 +422,10 @@ func (s *S) op(name string, req *go9p.SrvReq) {
 		b = s.Default
 	}
 	gate := s.gates[key]
+	var dupgate chan struct{}
+	if b.DupPack != 0 && b.DupGate {
+		dupgate = s.gates[DupKey(key)] // nil: released already
+	}
 	ent, ok2 := s.entered[key]
 	if !ok2 {
 		ent = make(chan struct{})
@@ -421,10 +460,29 @@ func (s *S) op(name string, req *go9p.SrvReq) {
 		m = ref9p.Canon(conv.FromFcall(req.Tc), dotu)
 	}
 	a := ExpectedAnswer(m, b, ftype)
+	extra := func() {
+		x := ExtraAnswer(m, b, ftype)
+		s.add(Entry{Kind: "extra", Op: name, Conn: req.Conn.Id, Key: key, Tag: req.Tc.Tag, Answer: x, Msg: m, Dotu: dotu})
+		s.respond(req, x)
+		s.add(Entry{Kind: "extradone", Op: name, Conn: req.Conn.Id, Key: key, Tag: req.Tc.Tag})
+	}
 	do := func() {
 		s.mu.Lock()
 		s.inside[key]--
 		s.mu.Unlock()
+		var extraOver chan struct{}
+		if b.DupPack != 0 && b.DupGate {
+			// the other completion path: waits for the harness, which lets it go
+			// at a chosen stage of the first reply's life
+			extraOver = make(chan struct{})
+			go func() {
+				defer close(extraOver)
+				if dupgate != nil {
+					<-dupgate
+				}
+				extra()
+			}()
+		}
 		s.add(Entry{Kind: "answer", Op: name, Conn: req.Conn.Id, Key: key, Tag: req.Tc.Tag, Answer: a, Msg: m, Dotu: dotu})
 		if b.DupRace && conv.Pack(req.Rc, a, dotu) == nil {
 			// two completion paths answering at the same instant (e.g. a result
@@ -454,6 +512,13 @@ func (s *S) op(name string, req *go9p.SrvReq) {
 		}
 		if b.Dup {
 			req.Respond()
+		}
+		if b.DupPack != 0 {
+			if extraOver != nil {
+				<-extraOver
+			} else {
+				extra()
+			}
 		}
 		s.add(Entry{Kind: "done", Op: name, Conn: req.Conn.Id, Key: key, Tag: req.Tc.Tag})
 	}
